@@ -81,6 +81,9 @@ class G:
         if capture:
             c = self.nid()
             self.spellings.add("block")
+            if c % 4 == 0:
+                self.spellings.add("labelled_block")
+                return "'blk%d: { zc(%d); %s }" % (c, c, t), c
             return "{ zc(%d); %s }" % (c, t), c
         return t, 0
 
